@@ -1291,9 +1291,11 @@ def covar_errors(params, data, errs, B, C=None):
         except (np.linalg.LinAlgError, ValueError) as _:
             onesigma = [-2] * len(mask[0])
 
+    # j runs over the free parameters of all components, in the same order
+    # as the rows of the jacobian
+    j = 0
     for i in range(int(params['components'].value)):
         prefix = "c{0}_".format(i)
-        j = 0
         for p in ['amp', 'xo', 'yo', 'sx', 'sy', 'theta']:
             if params[prefix + p].vary:
                 params[prefix + p].stderr = onesigma[j]
